@@ -280,6 +280,63 @@ fn build_dvitools(repo: &str, verif: &str) -> Option<String> {
     Some(format!("{target}/debug/dvitools"))
 }
 
+/// Writes `ops` as the reader must accept them but not necessarily as the writer would: every
+/// variable-width operand takes a random width ≥ the minimal one, small characters and fonts
+/// sometimes take their long forms (independent of `dvi::serialize`, except for the fixed-width
+/// operations and those with strings, whose layout has no freedom besides the number form).
+fn loose_bytes(ops: &[Op], rng: &mut Rng) -> Vec<u8> {
+    fn put_u(b: &mut Vec<u8>, base: u8, v: u32, rng: &mut Rng) {
+        let min = if v < 1 << 8 { 1 } else if v < 1 << 16 { 2 } else if v < 1 << 24 { 3 } else { 4 };
+        let k = min + rng.below((5 - min) as u64) as usize;
+        b.push(base + (k as u8 - 1));
+        b.extend_from_slice(&v.to_be_bytes()[4 - k..]);
+    }
+    fn put_i(b: &mut Vec<u8>, base: u8, v: i32, rng: &mut Rng) {
+        let min = if (-128..128).contains(&v) { 1 } else if (-32768..32768).contains(&v) { 2 } else if (-(1 << 23)..(1 << 23)).contains(&v) { 3 } else { 4 };
+        let k = min + rng.below((5 - min) as u64) as usize;
+        b.push(base + (k as u8 - 1));
+        b.extend_from_slice(&v.to_be_bytes()[4 - k..]);
+    }
+    let mut b = vec![];
+    for op in ops {
+        match op {
+            Op::TypesetChar { char, move_h } => {
+                if *move_h && *char < 128 && rng.chance(1, 2) {
+                    b.push(*char as u8);
+                } else {
+                    put_u(&mut b, if *move_h { 128 } else { 133 }, *char, rng);
+                }
+            }
+            Op::Right(i) => put_i(&mut b, 143, *i, rng),
+            Op::Down(i) => put_i(&mut b, 157, *i, rng),
+            Op::SetVar(v, i) => put_i(&mut b, [148, 153, 162, 167][var_code(*v) as usize], *i, rng),
+            Op::EnableFont(u) => {
+                if *u < 64 && rng.chance(1, 2) {
+                    b.push(171 + *u as u8);
+                } else {
+                    put_u(&mut b, 235, *u, rng);
+                }
+            }
+            Op::Extension(d) => {
+                put_u(&mut b, 239, d.len() as u32, rng);
+                b.extend_from_slice(d);
+            }
+            Op::DefineFont { number, checksum, at_size, design_size, area, name } => {
+                put_u(&mut b, 243, *number, rng);
+                for x in [checksum, at_size, design_size] {
+                    b.extend_from_slice(&x.to_be_bytes());
+                }
+                b.push(area.len() as u8);
+                b.push(name.len() as u8);
+                b.extend_from_slice(area.as_bytes());
+                b.extend_from_slice(name.as_bytes());
+            }
+            other => other.serialize(&mut b),
+        }
+    }
+    b
+}
+
 impl C16 {
     fn gen_string(rng: &mut Rng) -> String {
         let n = match rng.below(8) {
@@ -464,10 +521,10 @@ impl Property for C16 {
         let mut r = rng.fork();
         for i in 0..n_de {
             let bytes: Vec<u8> = if i % 3 == 0 {
-                // truncation / mutation of a valid stream
+                // truncation / mutation of a valid stream (half of them in non-minimal encodings)
                 let n = 1 + r.below(6) as usize;
                 let ops: Vec<Op> = (0..n).map(|_| Self::gen_op(&mut r, false)).collect();
-                let mut b = dvi::serialize(ops);
+                let mut b = if i % 2 == 0 { dvi::serialize(ops) } else { loose_bytes(&ops, &mut r) };
                 if b.len() > 400 {
                     b.truncate(400);
                 }
@@ -506,6 +563,28 @@ impl Property for C16 {
             }
             let old = *r.pick(&[0usize, 0, 1, 7, 100, 5000]);
             v.push(format!("bin {old} {}", join(&b)));
+        }
+        // `normalize` in process on streams in *non-minimal* encodings (what other DVI writers
+        // produce): theorem `normalize_bytes`
+        let n_nzb = if ctx.thorough { 40_000 } else { 4_000 };
+        let mut r = rng.fork();
+        for _ in 0..n_nzb {
+            let n = 1 + r.below(30) as usize;
+            let mut ops: Vec<Op> = (0..n).map(|_| Self::gen_op(&mut r, true)).collect();
+            if r.chance(1, 5) {
+                // an EndPostamble in the middle, sometimes directly before EnableFont(52) (C16-a)
+                let at = r.below(ops.len() as u64 + 1) as usize;
+                if r.chance(1, 2) {
+                    ops.insert(at, Op::EnableFont(52));
+                }
+                ops.insert(at, Op::EndPostamble { dvi_format: 2, postamble: interesting_i32(&mut r), num_223_bytes: *r.pick(&[0usize, 0, 1, 4]) });
+            }
+            let mut b = loose_bytes(&ops, &mut r);
+            if r.chance(1, 10) && !b.is_empty() {
+                let k = r.below(b.len() as u64) as usize;
+                b.truncate(k + 1);
+            }
+            v.push(format!("nzb {}", join(&b)));
         }
         let mut r = rng.fork();
         for _ in 0..n_vr {
@@ -641,6 +720,45 @@ impl Property for C16 {
                 let _ = std::fs::remove_dir_all(&dir);
                 out
             }
+            "nzb" => {
+                let bytes: Vec<u8> = parse_i64s(rest).into_iter().map(|x| x as u8).collect();
+                out.nontrivial = bytes.len() >= 2;
+                let m = drv.ask(&format!("nzq {}", join(&bytes)));
+                let b2 = bytes.clone();
+                let r = caught(move || {
+                    let mut result = Ok(());
+                    let ops1: Vec<Op> = dvi::Deserializer::new(&b2, &mut result).collect();
+                    if result.is_err() {
+                        return None;
+                    }
+                    let want: Vec<Op> = dvi::transforms::VarRemover::new(ops1.clone()).collect();
+                    let written = dvi::serialize(want.clone());
+                    let (back, err) = real_deserialize(&written);
+                    Some((ops1.len(), want, written, back, err))
+                });
+                match (r, m.strip_prefix("ok ")) {
+                    (Err(p), _) => out.fail(Kind::ImplPanic, "nzb", format!("panic {}", strip_msg(&p)), format!("normalize pipeline panicked: {p}")),
+                    (Ok(None), None) => out.tag("nzb:invalid-input"),
+                    (Ok(None), Some(_)) => out.fail(Kind::ImplVsModel, "nzb", "reader rejects a stream the model reads", m.clone()),
+                    (Ok(Some(_)), None) => out.fail(Kind::ImplVsModel, "nzb", "reader accepts a stream the model rejects", m.clone()),
+                    (Ok(Some((n1, want, written, back, err))), Some(mrest)) => {
+                        let (p52, mbytes) = mrest.split_once(' ').unwrap_or((mrest, ""));
+                        out.tag(format!("nzb:ok:p52free={p52}"));
+                        out.tag(format!("nzb:ops={}", if n1 < 4 { "1-3" } else if n1 < 12 { "4-11" } else { "12+" }));
+                        if written.len() < bytes.len() {
+                            out.tag("nzb:input-not-minimal");
+                        }
+                        if join(&written) != mbytes.trim() {
+                            out.fail(Kind::ImplVsSpec, "nzb", "normalize: bytes differ from serAll (varRemove (deserialize b))", format!("impl: {}\nspec: {}", join(&written), mbytes.trim()));
+                        } else if p52 == "1" && (err.is_err() || back != want) {
+                            // theorem normalize_bytes, on the implementation
+                            out.fail(Kind::ImplVsSpec, "nzb", format!("normalize: output does not read back as the rewritten operations ({})", diff_sig(&want, &back)),
+                                format!("rewritten: {}\nread back: {}", show_de(&want, &Ok(())), show_de(&back, &err)));
+                        }
+                    }
+                }
+                out
+            }
             _ => panic!("bad case {case}"),
         }
     }
@@ -672,6 +790,26 @@ impl Property for C16 {
                         let mut o = b.clone();
                         o.remove(i);
                         c.push(format!("de {}", join(&o)));
+                    }
+                }
+            }
+            "nzb" => {
+                // drop one operation's bytes at a time (boundaries as the real reader sees them)
+                let b: Vec<u8> = parse_i64s(rest).into_iter().map(|x| x as u8).collect();
+                let mut cuts = vec![0usize];
+                let mut cur: &[u8] = &b;
+                while let Ok(Some((_, tail))) = Op::deserialize(cur) {
+                    cuts.push(b.len() - tail.len());
+                    cur = tail;
+                }
+                if cuts.len() > 2 {
+                    let mid = cuts[cuts.len() / 2];
+                    c.push(format!("nzb {}", join(&b[..mid])));
+                    c.push(format!("nzb {}", join(&b[mid..])));
+                    for w in cuts.windows(2) {
+                        let mut o = b[..w[0]].to_vec();
+                        o.extend_from_slice(&b[w[1]..]);
+                        c.push(format!("nzb {}", join(&o)));
                     }
                 }
             }
